@@ -39,6 +39,11 @@ func (dec *yamlDecoder) processReadStream(reader *bufio.Reader) (io.Reader, stri
 	for {
 		peekBytes, err := reader.Peek(4)
 		if errors.Is(err, io.EOF) {
+			// fewer than four bytes are left: a short last comment line ("#c") still belongs to the leading content
+			if len(peekBytes) > 0 && commentLineRegEx.MatchString(string(peekBytes)) {
+				line, _ := reader.ReadString('\n')
+				sb.WriteString(line)
+			}
 			// EOF are handled else where..
 			return reader, sb.String(), nil
 		} else if err != nil {
